@@ -94,7 +94,7 @@ def run_one(case):
     want_dwr = [rc.dec_stream(p)[0]["hbh"] for k, p in parts if k == "dwr"]
     got = []                  # (consumer, bytes)
     info = {}
-    with World(role=case["role"], apps=["s6a"], line_preempt=case["lines"]) as w:
+    with World(role=case["role"], apps=["s6a"], line_preempt=case["lines"], line_holds=conc.wants_line_holds(case.get("holds"))) as w:
         if not w.open_connection():
             return [V("harness: connection setup failed", "harness/setup", w.state())], info
 
@@ -193,6 +193,8 @@ def _collect(shard, seed, n):
             f.add("preempted-at-source-line")
         if case.get("holds"):
             f.add("targeted-delay")
+            if conc.wants_line_holds(case.get("holds")):
+                f.add("delay-between-source-lines")
         nt = bool(f & {"message-spans-reads", "messages-share-a-read"}) and "prefix-with-switch" in f
         col.record(case, vs, nontrivial=nt, classes=sorted(f))
         col.extra["scheduling_steps"] = col.extra.get("scheduling_steps", 0) + info.get("steps", 0)
